@@ -300,6 +300,31 @@ def g12_scan_strings(ctx, g, prefix, require_string=True):
     alts = g.choices_of(loop[0]["e"])
     names = [a["v"] for a in alts if a["k"] == "ident"]
     ctx.check(names[:1] == ["log_macro"] and names[-1:] == ["ANY"], prefix, "G12|scan-shape", "G12: scan loop = (log_macro | … | ANY)* (%s)" % names, W)
+    # G12c: `file` is non-atomic, so inside every alternative that is spelled out in it (or factored into a silent /
+    # normal rule) WHITESPACE and COMMENT are skipped between the elements of a sequence and between the iterations of a
+    # repetition: such an alternative runs across separators and swallows the name of the statement that follows
+    # (`return warn!("..")` with a "skip a whole word" alternative). Extra alternatives must be atomic rules or single
+    # terminals.
+    def _skips(e, depth=0):
+        if depth > 12:
+            return True
+        k = e["k"]
+        if k == "ident":
+            v = e["v"]
+            if v not in g.rules:
+                return False        # built-in terminal
+            if g.rules[v]["ty"] in ("atomic", "compound_atomic"):
+                return False
+            return _skips(g.rules[v]["expr"], depth + 1)
+        if k in ("seq", "rep", "rep_once", "rep_exact", "rep_min", "rep_max", "rep_min_max"):
+            return True
+        return any(_skips(e[key], depth + 1) for key in ("a", "b", "e") if key in e and isinstance(e[key], dict))
+    extra = [a for a in flatten(loop[0]["e"], "choice") if not (a["k"] == "ident" and a["v"] in ("log_macro", "ANY"))]
+    loose = [a for a in extra if _skips(a)]
+    ctx.check(not loose, prefix, "G12|scan-alternative-atomic",
+              "G12c: every extra alternative of the scan loop is an atomic rule or a single terminal (no implicit WHITESPACE / COMMENT "
+              "skipping inside it, which would carry it across a separator into the next statement's name): %s"
+              % ([a.get("v", a["k"]) for a in loose] or "none of %d" % len(extra)), W)
     has_str = any(("chr", '"') in g.first(a) for a in alts if not (a["k"] == "ident" and a["v"] in ("log_macro", "ANY")))
     if require_string:
         ctx.check(has_str, prefix, "G12|file-scan-loop|no-string-alternative",
